@@ -111,6 +111,11 @@ def diagnose(exp, act):
         wins = [ins[i : i + 48] for i in range(0, max(len(ins) - 48, 1), 48)]
         if wins and sum(1 for w in wins if w in exp) >= 0.9 * len(wins):
             return "duplicate"
+        if 0 < len(ins) < 48 and len(ins) >= 4:
+            # a short surplus (1-byte writes): it is a repeat when the bytes delivered just before the surplus reappear in it
+            k = min(len(ins), a)
+            if k >= 4 and (act[a - k : a].endswith(ins[-min(8, len(ins)):]) or ins in exp or all(ins[i : i + 4] in exp for i in range(0, len(ins) - 3, 4))):
+                return "duplicate"
         if ins.strip(b"\r\n") == b"":
             return "extra-newline"
         return "foreign-bytes"
@@ -584,7 +589,11 @@ class C06:
             # symptoms whose cause does not depend on the view or capture form get one key per final-stage machinery, so that
             # which view happens to expose them in a given run does not matter
             parts = mech.split("/")
-            if len(parts) > 1 and parts[1] in ("escape-sequence-kept", "extra-newline", "undecoded-multibyte-character"):
+            df = kw.get("diff") or {}
+            if len(parts) > 1 and parts[0] == "TEXT" and parts[1] == "lost-tail" and case["payload"]["kind"] == "crlf" and df.get("expected_len", 0) - df.get("actual_len", 0) == 1:
+                # only the final line end of a CR/CRLF payload is missing from the text view: a CRLF cut by a read boundary
+                mech = f"FRAGMENT-BOUNDARY/final-newline-lost/{'threaded' if case.get('threads', True) else 'nothread'}"
+            elif len(parts) > 1 and parts[1] in ("escape-sequence-kept", "extra-newline", "undecoded-multibyte-character"):
                 mech = f"FRAGMENT-BOUNDARY/{parts[1]}/{'threaded' if case.get('threads', True) else 'nothread'}"
             elif len(parts) > 1 and parts[1] == "duplicate":
                 mech = f"DUPLICATE-CHUNK/{prox}"
